@@ -19,6 +19,7 @@ import Shm.Lemmas.ModesLemmas
 import Shm.Model.Wrap
 import Shm.Lemmas.PureThms
 import Shm.Pure.Config
+import Shm.Lemmas.ConfigLemmas
 namespace Shm.C17
 open Shm Shm.Store Shm.Crypto
 
@@ -166,3 +167,25 @@ theorem C17_octet2Raw_suffix (r : Bytes) : ∃ k, octet2Raw r = r.drop k := by
   · exact ⟨_, hnil _⟩
 
 end Shm.Pure
+
+/-! ### the configuration file: any byte content (unit-tied model of SimpleConfigLoader / Configuration) -/
+namespace Shm.Pure.Config
+open Shm
+
+/-- **comments and NUL bytes**: whatever follows a `#`, or a NUL byte, on a line has no effect on what the loader makes of the line - for ALL byte strings before and after -/
+theorem C17_conf_line_cut (a b : Bytes) : parseLine (a ++ 0x23 :: b) = parseLine a ∧ parseLine (a ++ 0 :: b) = parseLine a :=
+  ⟨parseLine_comment a b, parseLine_nul a b⟩
+
+/-- **an assignment line means what it says**: `name = value` with any blanks around two plain tokens (no blanks, `=`, `#`, NUL, CR, LF inside), followed by a newline and anything -/
+theorem C17_conf_assignment (n v s1 s2 s3 s4 tail : Bytes) (hn : PlainTok n) (hv : PlainTok v)
+    (h1 : ∀ c ∈ s1, blank c = true) (h2 : ∀ c ∈ s2, blank c = true) (h3 : ∀ c ∈ s3, blank c = true) (h4 : ∀ c ∈ s4, blank c = true) :
+    parseLine (s1 ++ n ++ s2 ++ 0x3d :: (s3 ++ v ++ s4) ++ 0x0a :: tail) = some (n, v) := parseLine_assign n v s1 s2 s3 s4 tail hn hv h1 h2 h3 h4
+
+/-- the loader is a total function of the file's bytes: every file yields at most one value per known setting (no setting is reported twice) -/
+theorem C17_conf_settings_functional (s : Settings) (k : String) (v : CVal) : ((s.set k v).filter (·.1 == k)).length = 1 := by
+  simp [Settings.set, List.filter_cons, List.filter_filter]
+
+/-- non-vacuity: a real line -/
+example : parseLine ("slots.removable\t=  true # as shipped\n".toUTF8.toList) = some ("slots.removable".toUTF8.toList, "true".toUTF8.toList) := by decide +kernel
+
+end Shm.Pure.Config
